@@ -128,15 +128,28 @@ func LoadProgram(repo string, specDir string, onlyDirs func(dir string) bool) (*
 	prog.Build()
 	p.ssa = prog
 	_ = spkgs
-	// contract comments
-	for _, pk := range all {
-		for _, f := range pk.GoFiles {
-			if strings.HasSuffix(f, "_verif.go") {
-				if _, err := p.specs.LoadContractComments(f, pk.PkgPath); err != nil {
-					return nil, err
-				}
-				p.contractFiles = append(p.contractFiles, f)
+	// contract comments: of every contract directory, also those whose packages are loaded only
+	// as dependencies (their contracts are needed at call sites)
+	var cdirs []string
+	for d := range dirs {
+		cdirs = append(cdirs, d)
+	}
+	sort.Strings(cdirs)
+	for _, d := range cdirs {
+		m := moduleRoot(d)
+		mp := modulePath(m)
+		rel, _ := filepath.Rel(m, d)
+		pkgPath := mp
+		if rel != "." {
+			pkgPath = mp + "/" + filepath.ToSlash(rel)
+		}
+		files := dirs[d]
+		sort.Strings(files)
+		for _, f := range files {
+			if _, err := p.specs.LoadContractComments(f, pkgPath); err != nil {
+				return nil, err
 			}
+			p.contractFiles = append(p.contractFiles, f)
 		}
 	}
 	// index functions of the loaded (root) packages, including methods and closures
@@ -336,4 +349,19 @@ func (p *Program) pkgByName(name string, from *types.Package) *types.Package {
 		}
 	}
 	return nil
+}
+
+// modulePath reads the module path from go.mod in dir.
+func modulePath(dir string) string {
+	data, err := os.ReadFile(filepath.Join(dir, "go.mod"))
+	if err != nil {
+		return ""
+	}
+	for _, l := range strings.Split(string(data), "\n") {
+		l = strings.TrimSpace(l)
+		if strings.HasPrefix(l, "module ") {
+			return strings.TrimSpace(strings.TrimPrefix(l, "module "))
+		}
+	}
+	return ""
 }
